@@ -167,7 +167,11 @@ static bool scope_conflict(const std::string& a, const std::string& b) {
 }
 
 static json gen_names(Choice& ch, int size) {
-    static const char* alphabet[] = {"a", "b", "ab", "abc", "B", "a1"};
+    // short identifiers, identifiers that are string prefixes of one another
+    // and of the namespaces the generator skips ("std::", "yorel::")
+    static const char* alphabet[] = {"a",  "b",  "ab", "abc", "B",    "a1",
+                                     "s",  "st", "y",  "yo",  "stdx", "a10"};
+    constexpr int NA = 12;
     int n = ch.draw(std::min(9, 2 + size / 6));
     std::vector<std::string> names;
     for (int i = 0; i < n; ++i) {
@@ -187,9 +191,9 @@ static json gen_names(Choice& ch, int size) {
         }
         int depth = ch.draw(4);
         for (int d = 0; d < depth; ++d) {
-            name += std::string(alphabet[ch.draw(6)]) + "::";
+            name += std::string(alphabet[ch.draw(NA)]) + "::";
         }
-        name += alphabet[ch.draw(6)];
+        name += alphabet[ch.draw(NA)];
         bool bad = false;
         for (auto& other : names) {
             bad |= other == name || scope_conflict(other, name);
@@ -213,9 +217,10 @@ struct TypeGen {
     std::string user_class() {
         static const char* ns[] = {"", "", "app::", "app::model::", "ab::",
                                    "a::"};
-        static const char* id[] = {"Animal", "Dog", "Cat", "a", "ab", "Node",
-                                   "stdx",   "yorelish"};
-        std::string n = std::string(ns[ch.draw(6)]) + id[ch.draw(8)];
+        static const char* id[] = {"Animal", "Dog",      "Cat", "a",  "ab",
+                                   "Node",   "stdx",     "yorelish", "s",
+                                   "st",     "yo"};
+        std::string n = std::string(ns[ch.draw(6)]) + id[ch.draw(11)];
         for (auto& c : classes) {
             if (c != n && scope_conflict(c, n)) {
                 return c;
